@@ -245,6 +245,16 @@ def main():
                         else:
                             undecided.append('kani: harness %s status %s' % (h, r['status']))
 
+        # ---- static guards -------------------------------------------------------------------------------
+        for st in P.get('static', []):
+            if st == 'no_override_side_pq':
+                for root, _d, fs in os.walk(os.path.join(snapshot, 'src', 'distance')):
+                    for f in fs:
+                        if f != 'mod.rs' and f.endswith('.rs'):
+                            t = open(os.path.join(root, f)).read()
+                            if re.search(r'\bfn\s+(side|pq_distance)\b', t):
+                                undecided.append('static: %s overrides Distance::side / pq_distance; the Kani proof covers the default methods only' % f)
+
         # ---- known findings -----------------------------------------------------------------------------
         kf = load_json(os.path.join(HERE, 'known_findings.json'), {'known': [], 'fixed': []})
         real_violations = []
